@@ -56,7 +56,8 @@ theorem best_chain_only_executed (P : Params) (F m hi lo : Nat) (r : Bool) (g : 
       show ∀ b ∈ s'.best, _
       rw [this.1]; exact h
     poolAdd := by intro s x h _; exact h
-    poolDel := by intro s x h; exact h }
+    poolDel := by intro s x h; exact h
+    restart := by intro s h; exact h }
   have h0 : QS (fun _ => True) Q (init F m hi lo r g) :=
     ⟨by intro b hb; simp only [init, List.mem_singleton] at hb; exact Or.inl hb, seen_init F m hi lo r g trivial⟩
   exact (hP.run evs _ (fun e _ => by cases e <;> trivial) h0).1
